@@ -338,12 +338,13 @@ prop("C25",
 
 
 prop("C18",
-     units=["boolentry", "errprint"],
+     units=["boolentry", "errprint", "entrystyle"],
      level="proof",
      claim="slice (booleans and error values, in every language): a boolean cell is displayed with the name of the display language (Boolean arm of Cell::get_localized_text) and "
            "Model::parse_boolean, the recogniser set_user_input calls, reads that name (any letter case) back as the same boolean and reads nothing as a boolean except the two "
            "localized and the two English names; an error cell is displayed by Error::to_localized_error_string (the localized name, unit errprint) and get_error_by_name answers "
-           "an error kind only for that kind's localized name and answers some kind for every localized name",
+           "an error kind only for that kind's localized name and answers some kind for every localized name; in set_user_input a value typed without a leading quote is stored — "
+           "in the boolean, error-value and text branches alike — with the cell's style WITHOUT the quote prefix (unit entrystyle, fragments), so it is not shown with a quote",
      assumptions=["data (language.bin): the two boolean names of a language are different, upper-case, and the error names pairwise different — then the kind read back is the "
                   "kind displayed", "str::to_uppercase / to_lowercase are uninterpreted functions of the text; String::parse::<bool> accepts exactly \"true\" and \"false\""],
      residual="numbers in every shape (15-digit display vs. stored double), dates, percentages, currencies, strings that look like values (quote prefix), formulas, styles — the "
